@@ -131,7 +131,7 @@ def _worker(task):
     modname, part, nparts, seed, tier = task
     mod = common.module(modname)
     sc = G.budget_scale(mod)
-    P = G.scaled_params(PARAMS[tier], sc)
+    P = G.scaled_params(PARAMS[tier], sc, tier)
     fnd, st = G.Findings(), G.Stats()
     rf = G.relfile(mod)
     VE = G.VE
@@ -213,7 +213,7 @@ def search(seed, tier):
     for n in names:
         mod = common.module(n)
         sc = G.budget_scale(mod)
-        forms = module_forms(mod, G.scaled_params(PARAMS[tier], sc))
+        forms = module_forms(mod, G.scaled_params(PARAMS[tier], sc, tier))
         nkw = len(G.option_sets(mod, 'validate')) if tier == 'thorough' else 1
         est = (sum(len(f) for _i, f in forms) + (nkw - 1) * (len(forms[0][1]) if forms else 0)) / sc
         parts = max(1, min(16, int(round(est / (40.0 if tier == 'thorough' else 25.0)))))
